@@ -18,7 +18,7 @@ pub fn props() -> Vec<Prop> {
         id: "C04",
         run: c04,
         tools: Some(miri_step),
-        rule: "(1) controlled scheduler over the guard hook: real threads run the real Memfs, one runnable at a time, yield points at the start of every call and before every guard acquisition made while holding no guard; every schedule of every small program is enumerated depth-first by re-execution (quick: all 2-thread x 1-call programs over the ~45-call alphabet + seeded 2x2 / 3x1 / 2x3 programs; thorough: + 3x2 programs and more seeds; schedule cap 4000 per program, a cap hit is inconclusive). Each execution is checked for linearizability against SEQUENTIAL MEMFS ITSELF (some order of the calls respecting program order and real-time precedence gives every call the same result and the same final snapshot), append exactly-once (unique tokens), nested guard acquisition, panics / poisoned lock, and the C03 walker at quiescence. (2) free-running stress: the same programs and 8-thread mixes released by a barrier on 16 cores, stamped by a global atomic clock, same checks, plus a wait-state monitor fed by the guard events (all threads inside before-acquire..release with no event for 5 s = deadlock certificate); the evidence counts how many call pairs really overlapped. (3) Miri (-Zmiri-many-seeds) on a hook-free executor: data races, deadlocks, UB under its own randomised preemption. distinct_nontrivial = distinct (program shape, operation multiset, linearizable?) tuples + distinct schedules.",
+        rule: "(1) controlled scheduler over the guard hook: real threads run the real Memfs, one runnable at a time, yield points at the start of every call and before every guard acquisition made while holding no guard; every schedule of every small program is enumerated depth-first by re-execution (quick: all 2-thread x 1-call programs over the ~45-call alphabet + seeded 2x2 / 3x1 / 2x3 programs; thorough: + 3x2 programs and more seeds; schedule cap 4000 per program, a cap hit is inconclusive). Each execution is checked for linearizability against SEQUENTIAL MEMFS ITSELF (some order of the calls respecting program order and real-time precedence gives every call the same result and the same final snapshot), append exactly-once (unique tokens), nested guard acquisition, panics / poisoned lock, and the C03 walker at quiescence. (2) free-running stress: the same programs and 8-thread mixes released by a barrier on 16 cores, stamped by a global atomic clock, same checks, plus a wait-state monitor fed by the guard events (all threads inside before-acquire..release with no guard event for 30 s = deadlock certificate); the evidence counts how many call pairs really overlapped. (3) Miri (-Zmiri-many-seeds) on a hook-free executor: data races, deadlocks, UB under its own randomised preemption. distinct_nontrivial = distinct (program shape, operation multiset, linearizable?) tuples + distinct schedules.",
         assumptions: &[
             "guard-boundary granularity is complete as long as all shared state stays behind read_guard/write_guard (cross-checked by Miri's race detector)",
             "the sequential specification is Memfs itself, so C04 does not depend on the reference model of C01",
@@ -355,7 +355,7 @@ fn stress(ctx: &Ctx, rep: &mut Report, chk: &mut Checker) {
                 if now != last || n == 0 || IN_SECTION.load(Ordering::SeqCst) < n {
                     last = now;
                     since = std::time::Instant::now();
-                } else if since.elapsed().as_secs() >= 5 {
+                } else if since.elapsed().as_secs() >= 30 {
                     stuck.store(true, Ordering::SeqCst);
                     crate::infra::write_stall_and_exit("deadlock");
                 }
@@ -431,13 +431,60 @@ fn stress(ctx: &Ctx, rep: &mut Report, chk: &mut Checker) {
     stop.store(true, Ordering::Relaxed);
     rep.count("stress_epochs", epochs as u64);
     rep.count("stress_overlapping_call_pairs", overlapping_pairs);
-    rep.count("stress_distinct_overlapping_operation_pairs", overlap_ops.len() as u64);
+    rep.count("stress_distinct_overlapping_operation_pairs(summed over shards)", overlap_ops.len() as u64);
     rep.count("stress_nested_acquisitions_seen", FREE_NESTED.load(Ordering::SeqCst) as u64);
     if FREE_NESTED.load(Ordering::SeqCst) > 0 {
         rep.violation("conc:stress:no-nested-guard-acquisition→nested", J::Int(FREE_NESTED.load(Ordering::SeqCst) as i64));
     }
     if overlapping_pairs == 0 {
         rep.inconclusive("the stress run produced no overlapping call pair");
+    }
+}
+
+/// C03's "at quiescence after every explored concurrent schedule": small programs under the controlled scheduler
+/// (every schedule) and free-running mixes, judged only by the C03 walker; used by the C03 check
+pub fn quiescence_integrity(ctx: &Ctx, rep: &mut Report) {
+    install_hook();
+    let alpha: Vec<Op> = alphabet().into_iter().filter(|o| !o.is_query()).collect();
+    let mut rng = ctx.rng("c03-concurrent");
+    let n = if ctx.thorough { 6000 } else { 300 } / ctx.shards + 1;
+    let clock = AtomicU64::new(1);
+    for k in 0..n {
+        let program: Vec<Vec<Op>> = (0..2 + k % 2).map(|_| (0..1 + rng.below(2)).map(|_| fresh_payload(&alpha[rng.below(alpha.len())])).collect()).collect();
+        let mut prefix: Vec<usize> = vec![];
+        let mut runs = 0;
+        loop {
+            let mem = Arc::new(Memfs::new());
+            setup(&mem);
+            set_case(&format!("inv:quiescence({}):every-call-returns→deadlock-or-hang", op_pair_sig(&program)), &format!("{:?}", program));
+            let ex = run_controlled(mem, &program, &prefix);
+            rep.eval();
+            rep.count("invariant_walks", 1);
+            rep.count("concurrent_schedules_walked", 1);
+            for (id, d) in check_invariants(&ex.final_snapshot) {
+                rep.violation(
+                    &format!("inv:{}(at quiescence after {})", id, op_pair_sig(&program)),
+                    J::obj(vec![("program", J::s(format!("{:?}", program))), ("schedule", J::s(format!("{:?}", ex.choices))), ("detail", J::s(d)), ("state", memfs_ntree(&ex.final_snapshot).to_json())]),
+                );
+                break;
+            }
+            runs += 1;
+            match next_prefix(&ex.choices) {
+                Some(p) if runs < 400 => prefix = p,
+                _ => break,
+            }
+        }
+        rep.key_str(&format!("quiescence|{}|{}", shape(&program), op_names(&program)));
+        // the same program free-running
+        let mem = Arc::new(Memfs::new());
+        setup(&mem);
+        let _ = run_free(mem.clone(), &program, &clock);
+        rep.eval();
+        let snap = mem.verif_snapshot();
+        for (id, d) in check_invariants(&snap) {
+            rep.violation(&format!("inv:{}(at quiescence after free-running {})", id, op_pair_sig(&program)), J::obj(vec![("program", J::s(format!("{:?}", program))), ("detail", J::s(d))]));
+            break;
+        }
     }
 }
 
